@@ -1,0 +1,28 @@
+//go:build verif
+
+package fp
+
+import "github.com/csgura/fp/internal/atomic"
+
+// VerifSetHook installs h at every instrumented yield point (verif builds only).
+func VerifSetHook(h func(site string)) { atomic.VerifHook = h }
+
+// VerifSetSpawn redirects tasks of the default executors to f (verif builds only).
+func VerifSetSpawn(f func(run func()) bool) { atomic.VerifSpawn = f }
+
+// VerifYield is the yield point used by other packages of the module.
+func VerifYield(site string) {
+	if h := atomic.VerifHook; h != nil {
+		h(site)
+	}
+}
+
+// VerifSpawn offers r to the installed spawn hook.
+func VerifSpawn(r Runnable) bool {
+	if f := atomic.VerifSpawn; f != nil {
+		return f(r.Run)
+	}
+	return false
+}
+
+func verifSpawn(r Runnable) bool { return VerifSpawn(r) }
